@@ -1,7 +1,9 @@
 CONSTANTS
+  Strict = TRUE
   Variant = "disable_keeps_target"
   MaxMoves = 1
   CfgSel = {"weekly", "oneshot"}
+  StartSel = {1, 2}
 SPECIFICATION MSpec
 CONSTRAINT Bound
 VIEW View
